@@ -39,9 +39,9 @@ def _bump_ids(k):
 
 # ---- multi-process experiment: a top-level, picklable simulation function built from library classes only
 def _mp_sim(system, index, seed, c1, c2, dur):
-    from simprocesd.model.factory_floor import Source, PartProcessor, Sink, Buffer
+    from simprocesd.model.factory_floor import Source, PartProcessor, Sink, Buffer, PartGenerator
     random.seed(seed * 1000 + index)
-    src = Source('src', cycle_time=c1)
+    src = Source('src', cycle_time=c1, part_generator=PartGenerator('p', value=1 + index))
     a = PartProcessor('a', upstream=[src], cycle_time=c2)
     b = PartProcessor('b', upstream=[src], cycle_time=c2 + index % 2)
     buf = Buffer('buf', upstream=[a, b], capacity=2)
@@ -56,7 +56,12 @@ def _mp_result(s):
     # part ids depend on the process-wide counter: keep everything but them
     rec = {sub: [(r[0], r[2], r[3]) for r in v] for sub, v in data.get('received_part', {}).items()}
     sinks = s.find_assets(type_=Sink)
-    return dict(index=data.get('index', {}).get('i'), received={k: v for k, v in rec.items()}, count=[k.received_parts_count for k in sinks], now=s.env.now)
+    try:
+        net = s.get_net_value_of_assets()
+    except Exception as e:          # noqa: BLE001  (whatever it raises is part of the result)
+        net = 'raised %s' % type(e).__name__
+    return dict(index=data.get('index', {}).get('i'), received={k: v for k, v in rec.items()}, count=[k.received_parts_count for k in sinks], now=s.env.now,
+                net=net, own=sum(a.value for a in s.find_assets()))
 
 
 def run_mp(sc):
@@ -116,6 +121,10 @@ def monitor_c14(sc, obs):
             idx = [r['index'] for r in mp[p]]
             if idx != [[(i,)] for i in range(len(idx))]:
                 bad('C14/mp-order', 'simulate_multiple_times(max_processes=%d) returned systems with indices %s, expected one per index in order' % (p, idx))
+        for p in (0, 2):
+            for k, r in enumerate(mp[p]):
+                if r['net'] != r['own']:
+                    bad('C14/mp-net-value', 'system %d returned by simulate_multiple_times(max_processes=%d) reports net value %s, its own assets are worth %s in all' % (k, p, r['net'], r['own']))
         if [dict(r, index=None) for r in mp[0]] != [dict(r, index=None) for r in mp[2]]:
             bad('C14/mp-differs', 'results of simulate_multiple_times differ between max_processes=0 and max_processes=2: %s vs %s' % (
                 [r['count'] for r in mp[0]], [r['count'] for r in mp[2]]))
